@@ -13,7 +13,14 @@ Cases == ndJsonDeserialize(IOEnv.CASES)
 SetOfSets(ss) == {Range(ss[k]) : k \in DOMAIN ss}
 
 Verdict(c) ==
-   CASE c.kind = "st" ->
+   CASE c.kind = "st" /\ c.maxsize > 0 ->
+        (* size-limited search: the inclusion-minimal ones among the siphons / traps of at most maxsize species *)
+        LET small == {X \in SUBSET SpSet(c.net) : Cardinality(X) <= c.maxsize}
+        IN FirstFail(<<
+          <<"size-limited-siphons", SetOfSets(c.siphons) = Minimal({X \in small : IsSiphon(c.net, X)})>>,
+          <<"size-limited-traps", SetOfSets(c.traps) = Minimal({X \in small : IsTrap(c.net, X)})>>
+        >>)
+     [] c.kind = "st" ->
         FirstFail(<<
           <<"siphons-no-duplicates", Cardinality(SetOfSets(c.siphons)) = Len(c.siphons)
                                      /\ \A k \in DOMAIN c.siphons : NoDup(c.siphons[k])>>,
